@@ -1,5 +1,6 @@
 import S3db.Lemmas.RowMerge
 import S3db.Lemmas.TableCells
+import S3db.Gen.Facts
 /-!
 # C01 — multi-writer merge converges regardless of merge order, grouping and repetition
 
@@ -134,6 +135,16 @@ theorem merge_not_join_unreachable :
     ∃ x y z : ARow Nat, ∃ c : String,
       lookup c (mergeRows (mergeRows x y) z).cols ≠ lookup c (mergeRows x (mergeRows y z)).cols :=
   mergeRows_not_assoc_without_inv
+
+/-- the decision points of `MergeRows` / `mergeValues` that `Model/Row.lean` and `Model/Table.lean`
+    follow, as read from the source on this run (the models are also run against the real
+    functions by the `rows` and `tbl` streams) -/
+theorem merge_facts :
+    S3db.Gen.facts.mergeStatusCond = "!t1.Add(r1.DeleteUpdateOffset.AsDuration()).After(t2.Add(r2.DeleteUpdateOffset.AsDuration()))" ∧
+    S3db.Gen.facts.mergeStatusBranchesAsExpected = true ∧ S3db.Gen.facts.mergeColumnSwitchAsExpected = true ∧
+    S3db.Gen.facts.deletedRowsKeepColumns = true ∧ S3db.Gen.facts.hideAndAdjAsExpected = true ∧
+    S3db.Gen.facts.mergeValuesAsExpected = true := by
+  decide
 
 /-! ## the hypotheses are met by what SQL statements produce -/
 
